@@ -45,12 +45,14 @@ func exec(c vh.Case, o *vh.Out) {
 			presentBefore := fmt.Sprint(w.Present)
 			want, known := w.ExpectOK(f)
 			tok, ws := w.Mutate(f)
-			if known && !desync && want != (tok == "ok") {
+			if known && !desync && want != (tok == "ok" || strings.HasPrefix(tok, "was")) {
 				o.Fail("result-mismatch", "%s returned %s; the pin model says it must %s", line, tok, map[bool]string{true: "succeed", false: "fail"}[want])
 			}
 			o.Kind(f[0])
 			o.Kind("res-" + tok)
-			o.Kind("ctx-" + f[len(f)-1])
+			if f[0] != "autosync" && f[0] != "flush" {
+				o.Kind("ctx-" + f[len(f)-1])
+			}
 			muts++
 			after := w.Query()
 			cur = after
@@ -75,6 +77,43 @@ func exec(c vh.Case, o *vh.Out) {
 				o.Kind("dangling")
 			}
 			o.Emit("%s %s", tok, w.CanonWrites(ws))
+		case "nested":
+			// call A with the complete call B inside the window in which A has released the lock
+			var fa, fb []string
+			for i, t := range f {
+				if t == ";;" {
+					fa, fb = f[1:i], f[i+1:]
+				}
+			}
+			tokA, tokB, wb, wa := w.Nested(fa, fb)
+			o.Kind("nested-" + fa[0])
+			o.Kind("nestedA-" + tokA)
+			o.Kind("nestedB-" + tokB)
+			muts++
+			after := w.Query()
+			cur = after
+			rs, _ := w.Raw(w.Store.Snapshot())
+			for _, msg := range rs.ConsistencyFailures() {
+				o.Fail("window-index-record-mismatch", "%q: %s", line, msg)
+			}
+			if tokA == "ok" && fa[0] == "pin" && after.T[0][vh.Atoi(fa[1])] != "r" {
+				o.Fail("window-pin-lost", "%q: Pin returned ok but cid %s is not recursively pinned", line, fa[1])
+			}
+			for _, idx := range []map[int][]string{rs.R, rs.D} {
+				for c, ids := range idx {
+					if len(ids) > 1 && !desync {
+						desync = true
+						o.Fail("window-duplicate-pin", "%q: %d pins of one mode for cid %d afterwards: dk1=%s rk1=%s", line, len(ids), c, after.Lists[1], after.Lists[3])
+					}
+				}
+			}
+			if !desync {
+				w.ResyncSpec(after) // the sequential pin model does not predict the outcome of a race
+				for _, fl := range w.SpecCheck(after) {
+					o.Fail(fl[0], "after %q: %s", line, fl[1])
+				}
+			}
+			o.Emit("A=%s B=%s %s %s", tokA, tokB, w.CanonWrites(wb), w.CanonWrites(wa))
 		case "q":
 			o.Emit("%s", cur.Line())
 		default:
